@@ -51,7 +51,7 @@ theorem readCommand_endArg (tol : Bool) (m : Mode) (en : Tok) (nm2 : NameArg) (h
     (by intro a ha; cases ha) (nameArg_ArgsOK nm2 [] (by intro a ha; cases ha))
     (by intro a ha; cases ha) (by intro a ha; cases ha)
     (by simp [WFa]) (nameArg_WFa nm2 hnm2 _ [] (by simp [WFa])) (by simp [WFa]) (by simp [WFa])
-    rest (by simp [cmdSig_given 1 0 (by omega), runOK]) f
+    rest (by simp [cmdSig_given 1 0 (by omega), runOK, tight]) f
     (by simpa [nameArg_toksArg] using hf)
   simpa [nameArg_toksArg, nameArg_treeArg] using h
 
